@@ -277,3 +277,34 @@ func VT_mlink_script() {
 	b, _ := q.Peek(1)
 	vOut("queue", a, b, q.Len(), q.Front())
 }
+
+// VH_mlink_FarOffsets: List.Peek/At and Queue.Peek for every offset in the int range.
+func VH_mlink_FarOffsets() {
+	n := vCase("n")
+	lst := NewList[int]()
+	q := NewQueue[int]()
+	ref := make([]int, n)
+	for i := range ref {
+		ref[i] = vOrd("x")
+		q.Add(ref[i])
+	}
+	lst.At(0).Add(ref...)
+	k := vInt("k")
+	vCover("mlink-far-offsets")
+	if k < 0 {
+		p1, _ := vPanics(func() { lst.Peek(k) })
+		p2, _ := vPanics(func() { lst.At(k) })
+		p3, _ := vPanics(func() { q.Peek(k) })
+		vAssert(p1 && p2 && p3, "Peek(k) and At(k) panic for k < 0, however far")
+		return
+	}
+	v, ok := lst.Peek(k)
+	vAssert(ok == (k < n), "List.Peek(k) ok iff k < Len, for every k")
+	vAssert(vImplies(!ok, v == 0), "List.Peek past the end is zero")
+	vAssert(lst.At(k).AtEnd() == (k >= n), "List.At(k) is the end exactly for k >= Len")
+	qv, qok := q.Peek(k)
+	vAssert(qok == (k < n), "Queue.Peek(k) ok iff k < Len, for every k")
+	for c := 0; c < n; c++ {
+		vAssert(vImplies(k == c, vAll(v == ref[c], qv == ref[c])), "Peek(k) is the k-th element")
+	}
+}
